@@ -42,6 +42,8 @@ def overlay_ops(P):
 
 
 def rules(ck, P):
+    from . import boxalg as _boxalg
+    _boxalg.box_core_rules(ck, P)       # slot index <-> coordinate of the sub-box stream (shared with C02 / C03 / C09 / C10)
     ops = overlay_ops(P)
     if not ck.anchor("R-FIRST", "overlay operation", ops, 1):
         return
